@@ -52,8 +52,8 @@ class FakePool:
 # abstract BAM description
 
 def mk_rec(name, contig, site, rstart, rlen, sample='s1', r1=True, dup=False, qcfail=False, mapq=60, mp='', key='k1',
-           proper=True, file=1, clip=0):
-    return {'file': file, 'clip': clip, 'name': name, 'contig': contig, 'site': int(site), 'rstart': int(rstart), 'rend': int(rstart + rlen),
+           proper=True, file=1, clip=0, paired=True, unmapped=False):
+    return {'file': file, 'clip': clip, 'paired': paired, 'unmapped': unmapped, 'name': name, 'contig': contig, 'site': int(site), 'rstart': int(rstart), 'rend': int(rstart + rlen),
             'sample': sample, 'r1': r1, 'dup': dup, 'qcfail': qcfail, 'mapq': mapq, 'mp': mp, 'key': key, 'proper': proper}
 
 
@@ -115,6 +115,22 @@ def gen_bam(rng, in_pre=True):
             m['rstart'] = max(0, min(mln - ml, r['rstart'] + rng.randint(0, 20)))
             m['rend'] = m['rstart'] + ml
             recs.append(m)
+    # records that pass every other filter but are not read-1 records, or not mapped: never to be counted
+    for t in range(rng.choice([0, 1, 2, 3])):
+        ci = rng.randrange(len(contigs))
+        ln = lens[ci]
+        rlen = min(rng.choice([1, 4, 8]), ln)
+        site = rng.choice([0, ln - 1, binsz * rng.randint(0, (ln - 1) // binsz), rng.randrange(ln)])
+        rstart = max(0, min(ln - rlen, site))
+        fi = rng.randint(1, nfiles)
+        cell = 'cellB' if nfiles == 1 else 'lib%d_cellB' % fi
+        kind = rng.choice(['unpaired', 'unpaired', 'read2_only', 'unmapped_read2'] + (['unmapped_read1'] if minmq > 0 else []))
+        r = mk_rec('x%d' % t, contigs[ci], site, rstart, rlen, sample=cell, r1=False, mapq=60, key='ref', file=fi, proper=False)
+        if kind == 'unpaired':
+            r['paired'] = False
+        elif kind.startswith('unmapped'):      # placed at its mate's position, no CIGAR, MAPQ 0
+            r.update(unmapped=True, rend=r['rstart'] + 1, mapq=0, r1=kind == 'unmapped_read1', clip=0)
+        recs.append(r)
     return {'contigs': contigs, 'lens': lens, 'nfiles': nfiles, 'recs': recs}, binsz, mfs, minmq
 
 
@@ -145,8 +161,9 @@ def write_bam(path, bam, fi=1):
         m = mates[0] if mates else None
         segs.append(bamgen.make_read(
             header, r['name'], r['contig'], r['rstart'], 'A' * (r['rend'] - r['rstart'] + r.get('clip', 0)),
-            cigar=('%dS%dM' % (r['clip'], r['rend'] - r['rstart'])) if r.get('clip') else None, paired=True, read1=r['r1'],
-            read2=not r['r1'], proper=r['proper'], mate_contig=(m or r)['contig'], mate_pos=(m or r)['rstart'],
+            cigar=('%dS%dM' % (r['clip'], r['rend'] - r['rstart'])) if r.get('clip') else None, paired=r.get('paired', True),
+            unmapped=r.get('unmapped', False), read1=r['r1'] and r.get('paired', True),
+            read2=not r['r1'] and r.get('paired', True), proper=r['proper'], mate_contig=(m or r)['contig'], mate_pos=(m or r)['rstart'],
             mate_unmapped=False, mapq=r['mapq'], dup=r['dup'], qcfail=r['qcfail'], tags=tags))
     bamgen.write_bam(path, header, segs)
 
@@ -252,7 +269,8 @@ def main():
             for k, group in by_recs.items():
                 recs, contigs, lens = json.loads(k)
                 bam = {'contigs': contigs, 'lens': lens, 'nfiles': max([r.get('file', 1) for r in recs] + [1]),
-                       'recs': [dict(r, name='t%d' % i, proper=True, file=r.get('file', 1)) for i, r in enumerate(recs)]}
+                       'recs': [dict(r, name='t%d' % i, proper=r.get('paired', True), file=r.get('file', 1), unmapped=False, clip=0)
+                                for i, r in enumerate(recs)]}
                 path = state['path'] = write_bams(tmp, bam)
                 emit(dict(bam, ev='bam', source='tlc_scenario'))
                 groups = {}
